@@ -53,7 +53,8 @@ QUAL = {'int': '_b.int', 'float': '_b.float', 'str': '_b.str', 'bool': '_b.bool'
         'skip_if_field': '_dw.skip_if_field', 'CatchAll': '_dw.CatchAll', 'JSONWizard': '_dw.JSONWizard',
         'JSONPyWizard': '_dw.JSONPyWizard', 'YAMLWizard': '_wm.YAMLWizard', 'TOMLWizard': '_wm.TOMLWizard',
         'JSONFileWizard': '_wm.JSONFileWizard', 'BaseJSONWizardMeta': '_bm.BaseJSONWizardMeta', 'type': '_b.type', 'float(': '_b.float('}
-QUAL.update({'Annotated': '_t.Annotated', 'IntEnum': '_en.IntEnum', 'StrEnum': '_en.StrEnum'})
+QUAL.update({'Annotated': '_t.Annotated', 'IntEnum': '_en.IntEnum', 'StrEnum': '_en.StrEnum', 'DumpMixin': '_dw.DumpMixin',
+             'LoadMixin': '_dw.LoadMixin'})
 for _n in ('EQ', 'NE', 'LT', 'LE', 'GT', 'GE', 'IS', 'IS_NOT', 'IS_TRUTHY', 'IS_FALSY'):
     QUAL[_n] = '_dw.' + _n
 
@@ -288,6 +289,12 @@ def cls_src(t, defs):
     # list ALL its fields (what an instance has, what the driver's flat class model sees), the first k of them are the inherited ones
     inh = info.get('inherits')
     own_fields = info['fields']
+    # optional `mixins`: {'names': ['DumpMixin', 'LoadMixin'], 'pos': 'pre' | 'post'} — a wizard class that is its own dumper / loader:
+    # the mix-ins are listed before / after the wizard base
+    mx = info.get('mixins')
+    if mx and not inh and wizard in (True, 'py', 'file'):
+        names = [q(n) for n in mx['names']]
+        base = '(' + ', '.join(names + [base[1:-1]] if mx.get('pos') == 'pre' else [base[1:-1]] + names) + ')'
     if inh:
         base = f'({ty_src(inh["base"], defs)})'
         own_fields = info['fields'][inh['n']:]
@@ -396,7 +403,8 @@ from enum import Enum
 from pathlib import Path
 from uuid import UUID
 from dataclass_wizard import (JSONWizard, JSONPyWizard, json_field, json_key, KeyPath, path_field, skip_if_field, SkipIf, CatchAll,
-                              EQ, NE, LT, LE, GT, GE, IS, IS_NOT, IS_TRUTHY, IS_FALSY, LoadMeta, DumpMeta, fromdict, asdict)
+                              EQ, NE, LT, LE, GT, GE, IS, IS_NOT, IS_TRUTHY, IS_FALSY, LoadMeta, DumpMeta, fromdict, asdict,
+                              DumpMixin, LoadMixin)
 from dataclass_wizard.bases_meta import BaseJSONWizardMeta
 from dataclass_wizard.v1 import Alias as V1Alias
 from dataclass_wizard.wizard_mixins import YAMLWizard, TOMLWizard, JSONFileWizard
